@@ -4,8 +4,15 @@
    pruning by DelOldBlocks(stable.time) and the reload of chain.initTxPool after a restart.
 
    Universe: one signed payload in two encodings "t" / "t2" (t2 = the s -> n-s re-encoded signature: other bytes,
-   other tx hash, same signer, same payload), a box "b" whose only sub-transaction is t, an unrelated "u".
-   A block carries a set of these; the tree of blocks grows by SaveBlock, the stable block advances (Advance =
+   other tx hash, same signer, same payload), a box "b" whose only sub-transaction is t, another box "w" (other signer,
+   other signed wrapper) around the same t, an unrelated "u".
+   A transaction has a SIGNED CONTENT (the ids above) and reaches the guard in a CARRIER: RLP for a transaction of its
+   own, the JSON payload of the box for a sub-transaction.  A carrier holds more than the signed content (a redundant
+   "hash" member, gasUsed, unknown members, member order, white space) and whoever builds the box writes those as he
+   likes: Encs names carrier encodings ("c" = canonical, what the node's own marshaller writes).  A block carries a
+   set of transactions, all in one carrier encoding, and every question is asked in every carrier encoding; the answers
+   the property demands do not mention the carrier: the guard must be keyed by signed content.
+   The tree of blocks grows by SaveBlock, the stable block advances (Advance =
    DelOldBlocks(time of the new stable block)), the node restarts (Restart = NewTxGuard + reload of the last 1800 s of
    the stable chain; unstable blocks are gone).
 
@@ -16,7 +23,9 @@
                                   not count: what was executed only on an abandoned fork may be executed again).
    HashCoversSig = TRUE is the code as written (identity of a transaction = hash over the signature bytes):
    GuardSound is then violated by t / t2 (negative control, deviation Dev_TxMalleableEncoding).  With FALSE
-   (identity = signed payload) every invariant holds. *)
+   (identity = signed payload) every invariant holds.
+   CarrierKeyed = TRUE (negative control): a sub-transaction read from a non-canonical box payload is filed under what
+   the payload says it is; GuardSound is then violated by b / t, b / w, b in two carrier encodings. *)
 EXTENDS Integers, Sequences, FiniteSets, TLC
 CONSTANTS Times,         \* grid of block timestamps: seconds, offsets from an epoch that is a multiple of 60, all >= 1800
           RootTimes,     \* timestamps of the root block (the stable block the guard starts from)
@@ -25,39 +34,51 @@ CONSTANTS Times,         \* grid of block timestamps: seconds, offsets from an e
           QMenu,         \* tx sets asked about
           MaxBlocks,     \* blocks of the tree, root included
           HashCoversSig,
+          Encs,          \* carrier encodings
+          CarrierKeyed,
           PruneLife,     \* DelOldBlocks keeps blocks younger than stable.time - PruneLife   (code and design: 1800)
           ReloadLife     \* initTxPool reloads stable blocks not older than stable.time - ReloadLife (code and design: 1800)
 Life == 1800
 Bucket == 60
-Tx == {"t", "t2", "b", "u"}
-Subs(x) == IF x = "b" THEN {"t"} ELSE {}
+Canon == "c"
+RlpEncs == {"g"}         \* manipulations that also exist for the RLP carrier of a transaction of its own (gasUsed)
+Tx == {"t", "t2", "b", "w", "u"}
+Boxes == {"b", "w"}
+Subs(x) == IF x \in Boxes THEN {"t"} ELSE {}
 Payload(x) == IF x = "t2" THEN "t" ELSE x
 Closure(x) == {x} \cup Subs(x)
 Effects(x) == {Payload(y) : y \in Closure(x)}          \* the signed payloads that take effect when x is executed
-Key(x) == IF HashCoversSig THEN x ELSE Payload(x)        \* what the tracer is keyed by
-Keys(x) == {Key(y) : y \in Closure(x)}
+Key(x) == IF HashCoversSig THEN x ELSE Payload(x)        \* what the tracer is keyed by: a function of the signed content
+\* tracer keys are triples: <<content key, "", "">>, or (CarrierKeyed only) <<content key, box, carrier encoding>> for a
+\* sub-transaction whose identity was taken from the payload of that box
+CKey(x) == <<Key(x), "", "">>
+SubKey(y, x, e) == IF CarrierKeyed /\ e # Canon THEN <<Key(y), x, e>> ELSE CKey(y)
+Keys(x, e) == {CKey(x)} \cup {SubKey(y, x, e) : y \in Subs(x)}
+KeySpace == {CKey(x) : x \in Tx} \cup (IF CarrierKeyed THEN {<<Key(y), x, e>> : y \in Tx, x \in Boxes, e \in Encs \ {Canon}} ELSE {})
+Carried(txs, e) == e = Canon \/ txs \cap Boxes # {} \/ (txs # {} /\ e \in RlpEncs)    \* the encodings that make a difference for txs
 Ids == 1..MaxBlocks
 
 VARIABLES exp,      \* expirations of this behaviour (constant)
-          blocks,   \* history: the tree, blocks[i] = [parent, time, txs, h]; 1 = root
+          encs,     \* = Encs (constant; in the state so that the adapter, which sees states, knows which carriers to build)
+          blocks,   \* history: the tree, blocks[i] = [parent, time, txs, enc, h]; 1 = root
           stable, dead,
           base, bkt, cache, tracer   \* the guard: TimeBase, bucket occupancy (block -> number of entries), cached blocks, tracer
-vars == <<exp, blocks, stable, dead, base, bkt, cache, tracer>>
+vars == <<exp, encs, blocks, stable, dead, base, bkt, cache, tracer>>
 
 N == Len(blocks)
 RECURSIVE Anc(_)
 Anc(b) == IF b = 0 THEN {} ELSE {b} \cup Anc(blocks[b].parent)
 Live == {b \in 1..N : b \notin dead /\ stable \in Anc(b)}
 Legal(x, tm) == \A y \in Closure(x) : tm <= exp[y] /\ exp[y] <= tm + Life      \* VerifyTxBody / checkBoxTx time window
-BlockKeys(b) == UNION {Keys(x) : x \in blocks[b].txs}
+BlockKeys(b) == UNION {Keys(x, blocks[b].enc) : x \in blocks[b].txs}
 BIdx(tm, bs) == tm \div Bucket - bs \div Bucket
 
 \* ---- the guard's own operations (shape of the Go code) ----
-\* SaveBlock of block id n with timestamp tm and transactions txs into guard state g = [base, bkt, cache, tracer]
-GSave(g, n, tm, txs) ==
+\* SaveBlock of block id n with timestamp tm and transactions txs (carried in encoding e) into guard state g = [base, bkt, cache, tracer]
+GSave(g, n, tm, txs, e) ==
   IF BIdx(tm, g.base) < 0 THEN g                                               \* ErrTimeBucketTime: nothing is recorded
   ELSE [g EXCEPT !.bkt[n] = @ + 1, !.cache = @ \cup {n},
-                 !.tracer = [k \in Tx |-> IF k \in UNION {Keys(x) : x \in txs} THEN @[k] \cup {n} ELSE @[k]]]
+                 !.tracer = [k \in KeySpace |-> IF k \in UNION {Keys(x, e) : x \in txs} THEN @[k] \cup {n} ELSE @[k]]]
 \* TimeBuckets.Expire(newBase) + the deletions of DelOldBlocks
 GExpire(g, newBase) ==
   IF BIdx(newBase, g.base) <= 0 THEN g
@@ -66,18 +87,18 @@ GExpire(g, newBase) ==
        IN [base |-> (newBase \div Bucket) * Bucket,
            bkt |-> [b \in Ids |-> IF b \in gone THEN 0 ELSE g.bkt[b]],
            cache |-> g.cache \ gone,
-           tracer |-> [k \in Tx |-> IF k \in delk THEN {} ELSE g.tracer[k]]]
+           tracer |-> [k \in KeySpace |-> IF k \in delk THEN {} ELSE g.tracer[k]]]
 G == [base |-> base, bkt |-> bkt, cache |-> cache, tracer |-> tracer]
 SetG(g) == base' = g.base /\ bkt' = g.bkt /\ cache' = g.cache /\ tracer' = g.tracer
-EmptyG(t0) == [base |-> ((t0 - Life) \div Bucket) * Bucket, bkt |-> [b \in Ids |-> 0], cache |-> {}, tracer |-> [k \in Tx |-> {}]]
+EmptyG(t0) == [base |-> ((t0 - Life) \div Bucket) * Bucket, bkt |-> [b \in Ids |-> 0], cache |-> {}, tracer |-> [k \in KeySpace |-> {}]]
 
-\* BlockCache.IsAppearedOnFork(LoadTraces(Q), P)
-TraceOf(Q) == UNION {tracer[k] : k \in UNION {Keys(q) : q \in Q}}
+\* BlockCache.IsAppearedOnFork(LoadTraces(Q), P); the transactions of Q arrive in carrier encoding e
+TraceOf(Q, e) == UNION {tracer[k] : k \in UNION {Keys(q, e) : q \in Q}}
 RECURSIVE Walk(_, _)
 Walk(b, minH) == IF b = 0 \/ b \notin cache \/ blocks[b].h < minH THEN {} ELSE {b} \cup Walk(blocks[b].parent, minH)
 MinH(S) == CHOOSE m \in {blocks[b].h : b \in S} : \A b \in S : m <= blocks[b].h
 MaxH(S) == CHOOSE m \in {blocks[b].h : b \in S} : \A b \in S : m >= blocks[b].h
-GuardAnswer(P, Q) == LET tr == TraceOf(Q) IN
+GuardAnswer(P, Q, e) == LET tr == TraceOf(Q, e) IN
                      IF tr = {} THEN FALSE
                      ELSE {b \in Walk(P, MinH(tr)) : blocks[b].h <= MaxH(tr)} \cap tr # {}
 
@@ -91,34 +112,34 @@ MustTrue(P, Q) == \E X \in Anc(P) : \E x \in blocks[X].txs : \E q \in Q : Confli
 MustFalse(P, Q) == ~OnChain(P, Q)
 
 \* ---- actions ----
-Init == /\ exp \in ExpChoices
+Init == /\ exp \in ExpChoices /\ encs = Encs
         /\ \E t0 \in RootTimes :
-             /\ blocks = <<[parent |-> 0, time |-> t0, txs |-> {}, h |-> 0]>>
-             /\ LET g == GSave(EmptyG(t0), 1, t0, {}) IN
+             /\ blocks = <<[parent |-> 0, time |-> t0, txs |-> {}, enc |-> Canon, h |-> 0]>>
+             /\ LET g == GSave(EmptyG(t0), 1, t0, {}, Canon) IN
                 base = g.base /\ bkt = g.bkt /\ cache = g.cache /\ tracer = g.tracer
         /\ stable = 1 /\ dead = {}
-SaveBlock(p, tm, txs) ==
-  /\ N < MaxBlocks /\ p \in Live /\ tm >= blocks[p].time /\ \A x \in txs : Legal(x, tm)
-  /\ blocks' = Append(blocks, [parent |-> p, time |-> tm, txs |-> txs, h |-> blocks[p].h + 1])
-  /\ SetG(GSave(G, N + 1, tm, txs))
-  /\ UNCHANGED <<exp, stable, dead>>
+SaveBlock(p, tm, txs, e) ==
+  /\ N < MaxBlocks /\ p \in Live /\ tm >= blocks[p].time /\ Carried(txs, e) /\ \A x \in txs : Legal(x, tm)
+  /\ blocks' = Append(blocks, [parent |-> p, time |-> tm, txs |-> txs, enc |-> e, h |-> blocks[p].h + 1])
+  /\ SetG(GSave(G, N + 1, tm, txs, e))
+  /\ UNCHANGED <<exp, encs, stable, dead>>
 SaveAgain(b) ==                                   \* "redundancy is fine": the same block is handed to SaveBlock again
   /\ b \in Live \cap cache /\ \A c \in Ids : bkt[c] <= 1          \* bound: at most one block is held twice
-  /\ SetG(GSave(G, b, blocks[b].time, blocks[b].txs))
-  /\ UNCHANGED <<exp, blocks, stable, dead>>
+  /\ SetG(GSave(G, b, blocks[b].time, blocks[b].txs, blocks[b].enc))
+  /\ UNCHANGED <<exp, encs, blocks, stable, dead>>
 Advance(s) ==                                     \* s becomes stable: onStableChanged -> DelOldBlocks(s.time)
   /\ s \in Live /\ s # stable
   /\ stable' = s
   /\ SetG(GExpire(G, blocks[s].time - PruneLife))
-  /\ UNCHANGED <<exp, blocks, dead>>
+  /\ UNCHANGED <<exp, encs, blocks, dead>>
 RECURSIVE Reload(_, _, _)
 Reload(g, b, t0) == IF b = 0 \/ t0 - blocks[b].time > ReloadLife THEN g
-                    ELSE Reload(GSave(g, b, blocks[b].time, blocks[b].txs), blocks[b].parent, t0)
+                    ELSE Reload(GSave(g, b, blocks[b].time, blocks[b].txs, blocks[b].enc), blocks[b].parent, t0)
 Restart ==                                        \* NewTxGuard(stable.time) + initTxPool; unstable blocks are lost
   /\ SetG(Reload(EmptyG(blocks[stable].time), stable, blocks[stable].time))
   /\ dead' = dead \cup ((1..N) \ Anc(stable))
-  /\ UNCHANGED <<exp, blocks, stable>>
-Next == \/ \E p \in Ids, tm \in Times, txs \in Menu : SaveBlock(p, tm, txs)
+  /\ UNCHANGED <<exp, encs, blocks, stable>>
+Next == \/ \E p \in Ids, tm \in Times, txs \in Menu, e \in Encs : SaveBlock(p, tm, txs, e)
         \/ \E b \in Ids : SaveAgain(b)
         \/ \E s \in Ids : Advance(s)
         \/ Restart
@@ -126,10 +147,10 @@ Spec == Init /\ [][Next]_vars
 
 \* ---- invariants ----
 TypeOK == /\ stable \in 1..N /\ dead \subseteq 1..N /\ cache \subseteq 1..N /\ base % Bucket = 0
-          /\ \A k \in Tx : tracer[k] \subseteq 1..N
+          /\ \A k \in KeySpace : tracer[k] \subseteq 1..N
 AnswerOK(P, Q, r) == (MustTrue(P, Q) => r) /\ (MustFalse(P, Q) => ~r)
-GuardSound == \A P \in Live : \A Q \in QMenu : AnswerOK(P, Q, GuardAnswer(P, Q))
-NoDangling == /\ \A k \in Tx : tracer[k] \subseteq cache                 \* else CollectBlocks panics
+GuardSound == \A P \in Live : \A Q \in QMenu : \A e \in Encs : AnswerOK(P, Q, GuardAnswer(P, Q, e))    \* whatever the carrier of the question
+NoDangling == /\ \A k \in KeySpace : tracer[k] \subseteq cache                 \* else CollectBlocks panics
               /\ cache = {b \in Ids : bkt[b] > 0}
 LiveCached == Live \subseteq cache                                       \* else SliceOnFork panics
 \* anything the guard no longer knows is expired for every possible child of every live block
@@ -137,7 +158,7 @@ WindowSufficient == \A P \in Live : \A X \in Anc(P) \ cache : \A x \in blocks[X]
                       exp[y] < blocks[stable].time
 \* whole-trace deletion only forgets transactions that can never be packaged again
 TracerComplete == \A X \in cache : \A x \in blocks[X].txs : \A y \in Closure(x) :
-                      exp[y] >= blocks[stable].time => X \in tracer[Key(y)]
+                      exp[y] >= blocks[stable].time => X \in tracer[IF y = x THEN CKey(y) ELSE SubKey(y, x, blocks[X].enc)]
 CarryEquiv == \A P \in Live, q \in Tx : CouldCarry(P, q) <=> CouldCarryFast(P, q)
 \* vacuity guards: these must be VIOLATED (reachability of the interesting cases); checked by separate cfgs in the thorough tier
 NeverPruned == \A b \in 1..N : b \in cache \/ b \in dead
